@@ -609,7 +609,20 @@ int main(void)
 				zombie[nzombie++] = cli[slot];
 			}
 			cli[slot] = NULL;
-			printf("r 0\n");
+			{
+				/* kernel oracle: closing a datagram socket purges what it had queued at a peer connected
+				 * back to it; tell the model whether the server's request socket still holds requests */
+				int id = slot_conn[slot], empty = 0;
+				if (!is_shm && id >= 0 && id < nconn && !C[id].destroyed_called) {
+					struct qb_ipcs_connection *sc = C[id].p;
+					if (sc->state == QB_IPCS_CONNECTION_ESTABLISHED) {
+						struct pollfd pf;
+						pf.fd = sc->request.u.us.sock; pf.events = POLLIN; pf.revents = 0;
+						empty = !(poll(&pf, 1, 0) > 0 && (pf.revents & POLLIN));
+					}
+				}
+				printf("r 0 %s\n", empty ? "e" : "q");
+			}
 			print_state();
 			continue;
 		}
@@ -617,6 +630,20 @@ int main(void)
 			long id = NUM(&p, 0);
 			int calls = 0;
 			printf("op t %ld\n", id);
+			{
+				/* kernel oracle (socket transport): does the request socket still hold datagrams?  (a close by the
+				 * client, or our own send to a closed client, purges the queue of a connected datagram socket) */
+				int empty = 0;
+				if (!is_shm && id >= 0 && id < nconn && !C[id].destroyed_called) {
+					struct qb_ipcs_connection *sc = C[id].p;
+					if (sc->state == QB_IPCS_CONNECTION_ESTABLISHED) {
+						struct pollfd pf;
+						pf.fd = sc->request.u.us.sock; pf.events = POLLIN; pf.revents = 0;
+						empty = !(poll(&pf, 1, 0) > 0 && (pf.revents & POLLIN));
+					}
+				}
+				printf("kq %s\n", empty ? "e" : "q");
+			}
 			if (id >= 0 && id < nconn) calls = server_turn(1, C[id].p);
 			printf("r %d\n", calls);
 			print_state();
